@@ -87,7 +87,7 @@ public :
                                     unsigned int currentLoop,
                                     unsigned int& nextState,
                                     unsigned int& nextLoop,
-                                    XMLSize_t elementIndex,
+                                    XMLSize_t& elementIndex,
                                     SubstitutionGroupComparator * comparator) const;
 
     virtual void checkUniqueParticleAttribution
@@ -166,7 +166,7 @@ AllContentModel::handleRepetitions( const QName* const /*curElem*/,
                                     unsigned int /*currentLoop*/,
                                     unsigned int& /*nextState*/,
                                     unsigned int& /*nextLoop*/,
-                                    XMLSize_t /*elementIndex*/,
+                                    XMLSize_t& /*elementIndex*/,
                                     SubstitutionGroupComparator * /*comparator*/) const
 {
     return true;
